@@ -193,6 +193,7 @@ ReqOf(ev) ==
      [] ev.op = "CustomExtApi" -> ReqCustomExtApi(ev.args, ev.obs)
      [] ev.op = "AcmeExtApi" -> ReqAcmeExtApi(ev.args, ev.obs)
      [] ev.op = "MiscApi" -> ReqMiscApi(ev.obs)
+     [] ev.op = "NeedsDigest" -> ReqNeedsDigest(ev.be, ev.obs)
      [] ev.op = "ParamsNew" -> ReqParamsNew(ev.args, ev.out, ev.obs)
      [] ev.op = "InsertEku" -> ReqInsertEku(ev.args, ev.obs)
      [] ev.op = "Zeroize" -> ReqZeroize(ev.obs)
